@@ -135,12 +135,19 @@ Record kopts := mkKo {
   ko_no_pty : bool;                          (* no-pty *)
   ko_no_fwd : bool;                          (* no-port-forwarding *)
   ko_permitopen : list (bytes * option Z);   (* permitopen="host:port" (port None = * ) *)
-  ko_principals : list bytes                 (* one pattern list text per principals="..." option *)
+  ko_principals : list bytes;                (* one pattern list text per principals="..." option *)
+  ko_no_touch : bool                         (* no-touch-required *)
 }.
-Definition ko_empty : kopts := mkKo None false false [] [].
+Definition ko_empty : kopts := mkKo None false false [] [] false.
 
 (* options of an OpenSSH user certificate (SSHServerConnection._cert_options) *)
-Record copts := mkCo { co_force : option bytes; co_pty : bool; co_fwd : bool }.
+Record copts := mkCo { co_force : option bytes; co_pty : bool; co_fwd : bool; co_no_touch : bool (* extension no-touch-required *) }.
+
+(* outcome of a check against the client address (from="..." of an authorized_keys entry, source-address of a
+   certificate): the option is absent; the address matches; it does not; or the check CANNOT be made because the
+   connection has no IP peer address (UNIX socket, tunnel without peername): ip_address('') raises ValueError,
+   which nobody catches - the connection goes down; in no case does an uncheckable restriction match *)
+Inductive fromres := FrAbsent | FrOk | FrBad | FrRaise.
 
 Record cert := mkCert {
   c_key : Z;                 (* identity of the certified public key *)
@@ -149,13 +156,13 @@ Record cert := mkCert {
   c_after : Z; c_before : Z; (* validity window *)
   c_principals : list user;
   c_opts : copts;
-  c_src_ok : bool            (* no source-address option, or the peer address is inside it *)
+  c_src : fromres            (* source-address option against the peer address *)
 }.
 
 (* what the key_data string of a publickey request decodes to *)
 Inductive blob := BKey (k : Z) | BCert (c : cert) | BBad.
 
-Record akentry := mkAe { ae_key : Z; ae_ca : bool; ae_opts : kopts; ae_from_ok : bool }.
+Record akentry := mkAe { ae_key : Z; ae_ca : bool; ae_opts : kopts; ae_from : fromres }.
 
 Inductive pwres := PTrue | PFalse | PChange.            (* bool or PasswordChangeRequired *)
 Inductive kbdres := KTrue | KFalse | KChal (nprompts : Z).
@@ -184,8 +191,9 @@ Record world := mkWorld {
   pk_cb_supported : bool;                 (* SSHServer.public_key_auth_supported() *)
   async_begin : bool;                     (* begin_auth returns an awaitable *)
   async_pw : bool; async_key : bool; async_ca : bool; async_kbd : bool;
-  installs : user -> bool                 (* does begin_auth(u) call set_authorized_keys at all?  false = it returns
+  installs : user -> bool;                (* does begin_auth(u) call set_authorized_keys at all?  false = it returns
                                              without touching the keys (no key file for u, an ignored OSError ...) *)
+  is_sk : Z -> bool                       (* the key is a FIDO security key (sk-ssh-ed25519@ / sk-ecdsa-sha2-nistp256@) *)
 }.
 
 (* which key set is in force after reload_config + begin_auth(u): reload_config puts the configured set
@@ -201,14 +209,23 @@ Definition principals_ok (pats : list bytes) (cp : option (list user)) : bool :=
   | Some ps => forallb (fun pat => existsb (fun p => wpl_match pat p) ps) pats
   end.
 
-(* SSHAuthorizedKeys.validate(key, host, addr, cert_principals, ca) *)
-Fixpoint ak_validate (es : list akentry) (k : Z) (cp : option (list user)) (ca : bool) : option kopts :=
+(* SSHAuthorizedKeys.validate(key, host, addr, cert_principals, ca); match_options checks from= first, then
+   principals=, and only for entries whose key is the presented one *)
+Inductive akres := AkNone | AkSome (o : kopts) | AkRaise.
+Fixpoint ak_validate (es : list akentry) (k : Z) (cp : option (list user)) (ca : bool) : akres :=
   match es with
-  | [] => None
+  | [] => AkNone
   | e :: r =>
-      if Bool.eqb (ae_ca e) ca && (ae_key e =? k) && ae_from_ok e && principals_ok (ko_principals (ae_opts e)) cp
-      then Some (ae_opts e) else ak_validate r k cp ca
+      if Bool.eqb (ae_ca e) ca && (ae_key e =? k) then
+        match ae_from e with
+        | FrRaise => AkRaise
+        | FrBad => ak_validate r k cp ca
+        | _ => if principals_ok (ko_principals (ae_opts e)) cp then AkSome (ae_opts e) else ak_validate r k cp ca
+        end
+      else ak_validate r k cp ca
   end.
+Definition ak_lookup (akl : option (list akentry)) (k : Z) (cp : option (list user)) (ca : bool) : akres :=
+  match akl with Some es => ak_validate es k cp ca | None => AkNone end.
 
 Inductive kbdmode := KbdOff | KbdApp | KbdPw.
 Definition kbd_mode (w : world) : kbdmode :=
@@ -269,6 +286,26 @@ Definition pw_start (w : world) (u : user) (body : bytes) : cbk * effect :=
     end
   end.
 
+(* ---- security keys: user presence ("touch") ---------------------------------------------------------
+   An sk signature blob is string alg, string sig, byte flags, uint32 counter; flag bit 0 = user present.
+   SSHKey.verify of an sk key refuses a signature without that flag when touch is required
+   (sk_eddsa.py / sk_ecdsa.py verify, public_key.py set_touch_required).  Touch is required unless waived:
+   for a plain key by no-touch-required on its authorized_keys entry (_validate_client_public_key); for a
+   certificate ONLY when BOTH the cert-authority entry AND the certificate extension say so
+   (_validate_openssh_certificate).  asyncssh has no notion of verify-required / the UV flag. *)
+Definition sig_up (sg : bytes) : bool :=
+  match get_string sg with
+  | Some (_, r1) => match get_string r1 with
+                    | Some (_, f :: _) => Z.odd f
+                    | _ => false
+                    end
+  | None => false
+  end.
+Definition touch_required_key (o : kopts) : bool := negb (ko_no_touch o).
+Definition touch_required_cert (o : kopts) (c : copts) : bool := negb (ko_no_touch o && co_no_touch c).
+Definition sk_accepts (w : world) (k : Z) (touch : bool) (sg : bytes) : bool :=
+  negb (is_sk w k) || negb touch || sig_up sg.
+
 (* _ServerPublicKeyAuth._start + SSHServerConnection.validate_public_key.
    [full] is the whole request payload; msg = packet.get_consumed_payload() taken right after key_data. *)
 Definition pk_start (w : world) (sid : bytes) (akl : option (list akentry)) (u : user) (full body : bytes)
@@ -289,18 +326,19 @@ Definition pk_start (w : world) (sid : bytes) (akl : option (list akentry)) (u :
         | None => dying
         | Some osig =>
           let msg := firstn (length full - length r3) full in
-          let fin (k : Z) : result :=
+          let fin (k : Z) (touch : bool) : result :=
             match osig with
             | None => RsPkOk
-            | Some sg => if verify w k (sstr sid ++ msg) sg then RsSuccess else RsFailure
+            | Some sg => if verify w k (sstr sid ++ msg) sg && sk_accepts w k touch sg then RsSuccess else RsFailure
             end in
           match decode w kb with
           | BBad => (CbNone, eff RsFailure)
           | BKey k =>
-              match (match akl with Some es => ak_validate es k None false | None => None end) with
-              | Some o => (CbNone, mkEff (Some o) None (fin k))
-              | None => if cb_key w u k then (CbKey, mkEff (Some ko_empty) None (fin k))
-                        else (CbKey, eff RsFailure)
+              match ak_lookup akl k None false with
+              | AkRaise => dying
+              | AkSome o => (CbNone, mkEff (Some o) None (fin k (touch_required_key o)))
+              | AkNone => if cb_key w u k then (CbKey, mkEff (Some ko_empty) None (fin k (touch_required_key ko_empty)))
+                          else (CbKey, eff RsFailure)
               end
           | BCert c =>
               (* _validate_openssh_certificate after the CA was accepted with entry options o *)
@@ -310,12 +348,16 @@ Definition pk_start (w : world) (sid : bytes) (akl : option (list akentry)) (u :
                              | _ => true
                              end in
                 if c_is_user c && (c_after c <=? now w) && (now w <? c_before c) && cu_ok then
-                  if c_src_ok c then mkEff (Some o) (Some (c_opts c)) (fin (c_key c))
-                  else mkEff (Some o) None RsFailure
+                  match c_src c with
+                  | FrRaise => mkEff (Some o) None RsDie
+                  | FrBad => mkEff (Some o) None RsFailure
+                  | _ => mkEff (Some o) (Some (c_opts c)) (fin (c_key c) (touch_required_cert o (c_opts c)))
+                  end
                 else mkEff (Some o) None RsFailure in
-              match (match akl with Some es => ak_validate es (c_ca c) (Some (c_principals c)) true | None => None end) with
-              | Some o => (CbNone, rest o)
-              | None => if cb_ca w u (c_ca c) then (CbCa, rest ko_empty) else (CbCa, eff RsFailure)
+              match ak_lookup akl (c_ca c) (Some (c_principals c)) true with
+              | AkRaise => dying
+              | AkSome o => (CbNone, rest o)
+              | AkNone => if cb_ca w u (c_ca c) then (CbCa, rest ko_empty) else (CbCa, eff RsFailure)
               end
           end
         end
@@ -710,9 +752,10 @@ Definition granted (w : world) (sid : bytes) (U : user) (D : list bytes) : bool 
 Definition ko_eqb (a b : kopts) : bool :=
   option_eqb zlist_eqb (ko_command a) (ko_command b) && Bool.eqb (ko_no_pty a) (ko_no_pty b) &&
   Bool.eqb (ko_no_fwd a) (ko_no_fwd b) && list_eqb po_eqb (ko_permitopen a) (ko_permitopen b) &&
-  list_eqb zlist_eqb (ko_principals a) (ko_principals b).
+  list_eqb zlist_eqb (ko_principals a) (ko_principals b) && Bool.eqb (ko_no_touch a) (ko_no_touch b).
 Definition co_eqb (a b : copts) : bool :=
-  option_eqb zlist_eqb (co_force a) (co_force b) && Bool.eqb (co_pty a) (co_pty b) && Bool.eqb (co_fwd a) (co_fwd b).
+  option_eqb zlist_eqb (co_force a) (co_force b) && Bool.eqb (co_pty a) (co_pty b) && Bool.eqb (co_fwd a) (co_fwd b) &&
+  Bool.eqb (co_no_touch a) (co_no_touch b).
 Definition restr_eqb (a b : kopts * option copts) : bool :=
   ko_eqb (fst a) (fst b) && option_eqb co_eqb (snd a) (snd b).
 
